@@ -375,3 +375,34 @@ h!(q_de_unique_owned, {
     }
     kani::cover!(ok);
 });
+
+// ---- a zero-sized payload still goes through its own Deserialize impl (it may validate its input, and fail)
+struct Zq;
+impl<'de> Deserialize<'de> for Zq {
+    fn deserialize<D: Deserializer<'de>>(_d: D) -> Result<Zq, D::Error> {
+        unsafe {
+            DE_CALLS += 1;
+            match DE_RESULT {
+                Ok(_) => Ok(Zq),
+                Err(e) => Err(<D::Error as serde::de::Error>::invalid_length(e as usize, &"a Zq")),
+            }
+        }
+    }
+}
+h!(q_de_zst_payload, {
+    let ok: bool = kani::any();
+    let v: u8 = kani::any();
+    kani::assume(v != 254);
+    unsafe { DE_RESULT = if ok { Ok(v) } else { Err(v) } };
+    let r = <Arc<Zq> as Deserialize>::deserialize(De(0));
+    assert!(unsafe { DE_CALLS } == 1, "a zero-sized payload was not deserialised through its own impl");
+    match r {
+        Ok(a) => assert!(ok && Arc::count(&a) == 1),
+        Err(e) => assert!(!ok && e == SerErr(v), "the payload's error was lost"),
+    }
+    unsafe { DE_CALLS = 0 };
+    let r = <UniqueArc<Zq> as Deserialize>::deserialize(De(0));
+    assert!(unsafe { DE_CALLS } == 1 && r.is_ok() == ok);
+    kani::cover!(ok);
+    kani::cover!(!ok);
+});
